@@ -33,7 +33,8 @@ PROP = dict(
           "Non-trivial: width mod 4 != 0, or alpha, or channel width > 8, or an image produced by an operation (derived), or a container variant phosg's own save() never writes "
           "(grayscale, reordered/padded headers, other maxval, V4/V5/56-byte BMP headers, permuted masks, top-down rows, data-offset gap). "
           "Distinct = distinct case encodings (hash); fuzz inputs are distinct by (variant, sub-variant, size, cut)."),
-    assumptions=["whether saving an image with channels wider than 8 bits as PNG / BMP is refused (as in /repo) or exported is not stated: counted (wide-save-refused / -exported), not judged",
+    assumptions=["whether save(GRAYSCALE_PPM) is refused (as in /repo) or written is not stated: counted",
+                 "whether saving an image with channels wider than 8 bits as PNG / BMP is refused (as in /repo) or exported is not stated: counted (wide-save-refused / -exported), not judged",
                  
         "the PNG's zlib stream is valid when: CM = 8, CINFO <= 7, FCHECK correct, no preset dictionary, every back-reference distance within the window the header declares "
         "(RFC 1950 2.2; a smaller declared window is accepted as long as the stream respects it), Adler-32 correct, nothing after the stream, exactly height*(1+width*channels) bytes; "
